@@ -52,6 +52,19 @@ fn elem_swaps<E: Elem>(out: &mut Out, bound: usize, rng: &mut Rng, sample: usize
                         coords.push(('w', i, j));
                     }
                 }
+                // caller-defined index types with inconsistent accessors (kind 's'): all plain pairs
+                if nr * nc > 0 && nr * nc <= 6 {
+                    for i in 0..=nr as isize {
+                        for j in 0..=nc as isize {
+                            for i2 in 0..nr as isize {
+                                for j2 in 0..nc as isize {
+                                    w.swap_elems(out, 0, ('s', i, j), ('s', i2, j2));
+                                    w.swap_elems(out, 0, ('p', i2, j2), ('s', i, j));
+                                }
+                            }
+                        }
+                    }
+                }
                 for (n, &a) in coords.iter().enumerate() {
                     for (k, &b) in coords.iter().enumerate() {
                         if sample > 1 && (n * 31 + k) % sample != 0 && rng.below(sample) != 0 {
